@@ -149,7 +149,9 @@ def run(ctx):
             rs = np.random.RandomState(ctx.rng.randint(0, 2 ** 31 - 1))
             m, n = ctx.rng.randint(1, 7), ctx.rng.randint(1, 7)
             X = rs.randn(m, n)
-            kind = ctx.rng.choice(['full', 'deficient', 'repeated'])
+            kind = ctx.rng.choice(['full', 'deficient', 'repeated', 'integer'])
+            if kind == 'integer':
+                X = rs.randint(-4, 5, (m, n)).astype(ctx.rng.choice(['int64', 'int32', 'float64']))
             if kind == 'deficient' and min(m, n) >= 2:
                 X = rs.randn(m, 1) @ rs.randn(1, n) + (rs.randn(m, 1) @ rs.randn(1, n) if ctx.rng.random() < 0.5 else 0)
             if kind == 'repeated':
